@@ -149,6 +149,7 @@ def C14(tier):
 
 
 KEYTAB64 = dict(text_patches=[[r'myth_tls_tree_depth = 3,', 'myth_tls_tree_depth = 1,']])
+KEYTAB16 = dict(text_patches=[[r'myth_tls_tree_depth = 3,', 'myth_tls_tree_depth = 0,']])
 A_ASSUME = ['malloc/mmap never fail (--no-malloc-may-fail)', 'environment functions are nondeterministic stubs constrained only by their documented contract (listed per harness)']
 def ajob(name, src, defs=(), unwind=6, timeout=1200, mem_gb=10, replace_calls=(), bounds=None, extra=(), wrap='MYTH_WRAP_VANILLA', note='', remove_bodies=(), func=None, sat=None, cfg=None):
     b = dict(unwind=unwind); b.update(bounds or {})
@@ -195,10 +196,10 @@ def C10(tier):
             ajob('fresh_node_clean', 'harness/C10_fresh.c', [], unwind=18, timeout=900, cfg=dict(real_tls_types=True), bounds=dict(memory='recycled descriptor pool and malloc chunk with arbitrary previous contents; real node type, byte-level')),
             ajob('keyalloc.seq.a5', 'harness/C10_keyalloc_seq.c', ['-DKA_A=5', '-DKA_B=63'], unwind=6, timeout=900, cfg=KEYTAB64, bounds=dict(key_table='scaled to 64 cells by patching the enumerator myth_tls_tree_depth 3 -> 1 in the preprocessed copy (the allocator code is unchanged and parametric in the table size; the full 16 KB table ran the SAT instance out of memory)', state='free list [5,63], all other cells live; deleted key symbolic over {5, 1023, any out-of-range int}; 6 operations')),
             ajob('keyalloc.seq.a0', 'harness/C10_keyalloc_seq.c', ['-DKA_A=0', '-DKA_B=17'], unwind=6, timeout=900, cfg=KEYTAB64, bounds=dict(key_table='scaled to 64 cells (see keyalloc.seq.a5)', state='free list [0,17]; deleted key symbolic over {0, 256, any out-of-range int}'))]
+    jobs.append(bjob('keyalloc.conc.r3', 'harness/C10_keyalloc_conc.c', ['t0', 't1'], 3, ['-DMODE=1'], preempt='all', delete=['empty_loop'], special={},
+                     extra_cfg=dict(env_model=None, text_patches=KEYTAB16['text_patches']), unwind=18, timeout=7200, mem_gb=16,
+                     bounds=dict(key_table='scaled to 16 cells (enumerator patch myth_tls_tree_depth 3 -> 0)', threads='T0: create, create; T1: create, create, delete, create')))
     if tier == 'thorough':
-        jobs.append(bjob('keyalloc.conc.r4', 'harness/C10_keyalloc_conc.c', ['t0', 't1'], 4, ['-DMODE=1'], preempt='all', delete=['empty_loop'], special={},
-                         extra_cfg=dict(env_model=None, text_patches=KEYTAB64['text_patches']), unwind=66, timeout=2400,
-                         bounds=dict(key_table='scaled to 64 cells (enumerator patch, see keyalloc.seq.a5)', threads='T0: create, create; T1: create, create, delete, create')))
         jobs += [ajob('tree.k3', 'harness/C10_tree.c', ['-DNK=3', '-DNPOOL=13', '-DGARBAGE=1'], unwind=18, timeout=7200, mem_gb=24, bounds=dict(keys='3 stored keys + 1 queried key'))]
     return dict(jobs=jobs, assumptions=A_ASSUME + ['tree nodes come from typed static pools standing for real_malloc'],
                 functions=['myth_tls_tree_get', 'myth_tls_tree_set', 'myth_tls_tree_init', 'myth_tls_key_allocator_alloc', 'myth_tls_key_allocator_dealloc'])
